@@ -61,7 +61,7 @@ Proof. split; reflexivity. Qed.
 
 (** The message-order theorems are not vacuous either: a script that fails in the middle. *)
 Example ex_out_of_order :
-  model_script false true [1; 2]%N [] [IS1; INodes []; IH3 []] = "err UnexpectedMessage | b>S2 h1.1,h1.2 | leaks -"%string.
+  model_script false true [1; 2]%N [] [IS1; INodes []; IH3 []] None = "err UnexpectedMessage | b>S2 h1.1,h1.2 | leaks -"%string.
 Proof. vm_compute. reflexivity. Qed.
 
 (** * Soundness of the oracle pieces *)
@@ -167,18 +167,31 @@ Proof.
 Qed.
 
 (** What [check_script = true] means: the observed outcome is the one the message-order
-    specification demands, and nothing raw was sent. *)
-Theorem check_script_sound alice r ts book script o sent leaks :
-  check_script alice r ts book script o sent leaks = true ->
-  outcome_err cw o = fst (expect cw N (if alice then alice_expects else bob_expects)
-                                 (map (to_rx (if alice then 1 else 0)%N) script) 0) /\
+    specification demands (or [Sink] when the sink takes fewer messages than the side would
+    send), and nothing raw was sent. *)
+Theorem check_script_sound alice r ts book script sink o sent leaks :
+  check_script alice r ts book script sink o sent leaks = true ->
+  let spec := expect cw N (if alice then alice_expects else bob_expects)
+                     (map (to_rx (if alice then 1 else 0)%N) script) 0 in
+  let want := if alice then S (snd spec) else Nat.min 2 (snd spec) in
+  let k := match sink with Some k => k | None => 3 end in
+  (want <= k -> outcome_err cw o = fst spec /\ List.length sent = want) /\
+  (k < want -> outcome_err cw o = Some SinkErr /\ List.length sent = k) /\
   leaks = 0 /\
   (forall m, In m sent -> forall t, cw_raw t -> ~ occurs cw N t m).
 Proof.
   unfold check_script.
   destruct (expect cw N (if alice then alice_expects else bob_expects) (map (to_rx (if alice then 1%N else 0%N)) script) 0) as [e n] eqn:E.
-  rewrite !andb_true_iff. intros [[[[[He _] _] Hl] Hr] _].
-  cbn [fst]. split.
-  - destruct o as [res|[|]]; destruct e as [[|]|]; cbn in He |- *; try discriminate; reflexivity.
-  - split; [apply Nat.eqb_eq; exact Hl|]. apply no_raw_words_spec. exact Hr.
+  cbn [fst snd].
+  set (want := if alice then S n else Nat.min 2 n).
+  set (k := match sink with Some k => k | None => 3 end).
+  rewrite !andb_true_iff. intros [[[[Ho _] Hl] Hr] _].
+  assert (Herr : forall x, err_eqb (outcome_err_b o) x = true -> outcome_err cw o = x).
+  { intros x. destruct o as [res|[| |]]; destruct x as [[| |]|]; cbn; try discriminate; reflexivity. }
+  destruct (Nat.leb_spec want k) as [Hle|Hgt]; apply andb_true_iff in Ho; destruct Ho as [He Hlen];
+    apply Nat.eqb_eq in Hlen; apply Herr in He.
+  - split; [intros _; split; assumption|]. split; [intros Hc; lia|].
+    split; [apply Nat.eqb_eq; exact Hl|]. apply no_raw_words_spec. exact Hr.
+  - split; [intros Hc; lia|]. split; [intros _; split; assumption|].
+    split; [apply Nat.eqb_eq; exact Hl|]. apply no_raw_words_spec. exact Hr.
 Qed.
